@@ -104,7 +104,7 @@ def check_case(acc, src, mode, origin):
 
 _nv = {}
 # input side of finding F15a: the rejected text contains version-gated syntax, so a speculative parse can reach a version check
-_GATED_TEXT = re.compile(r"except\s*\*|(?m:^\s*type\s+\w)|\b(?:def|class)\s+\w+\s*\[")
+_GATED_TEXT = re.compile(r"except\s*\*|\btype\s+\w|\b(?:def|class)\s+\w+[^\n\[]{0,3}\[")
 
 
 def _short(s):
